@@ -100,8 +100,19 @@ func probeFile(mr metadata.Reader, id uint32) {
 	}
 }
 
-func execTree(c Case) Obs {
-	blob := tinyBlob(tocEntries(c.Ops))
+func execTree(c Case) Obs { return execTreeBlob(tinyBlob(tocEntries(c.Ops)), c.Ops) }
+
+// TryPassthrough asks for the passthrough file of a regular file with a small merge buffer (chunk collection loop,
+// merge batches); errors are expected (the memory cache has no file to pass through).
+func TryPassthrough(ra io.ReaderAt) {
+	if g, ok := ra.(reader.PassthroughFdGetter); ok {
+		if _, r, err := g.GetPassthroughFd(8, 2); err == nil && r != nil {
+			r.Close()
+		}
+	}
+}
+
+func execTreeBlob(blob []byte, ops []Ent) Obs {
 	sr := io.NewSectionReader(bytes.NewReader(blob), 0, int64(len(blob)))
 	mr, err := memory.NewReader(sr)
 	if err != nil {
@@ -119,7 +130,7 @@ func execTree(c Case) Obs {
 	}
 	// estargz.Reader API over every name mentioned in the TOC
 	if er, err := estargz.Open(sr); err == nil {
-		for _, e := range c.Ops {
+		for _, e := range ops {
 			for _, nm := range []string{e.Name, e.Link} {
 				er.Lookup(nm)
 				er.ChunkEntryForOffset(nm, 0)
@@ -139,6 +150,7 @@ func execTree(c Case) Obs {
 			if ra, err := gr.OpenFile(id); err == nil {
 				ra.ReadAt(make([]byte, 16), 0)
 				ra.ReadAt(make([]byte, 16), 3)
+				TryPassthrough(ra)
 			}
 		}
 	}
@@ -316,6 +328,14 @@ func treeCorpus() []Case {
 		{Kind: "tree", Ops: []Ent{{Name: "./", Type: "dir"}, {Name: "", Type: "reg"}, {Name: ".", Type: "hardlink", Link: "a"}, {Name: "a", Type: "bogus"}, {Name: "a", Type: "dir"}, {Name: "zz", Type: "chunk", ChunkOffset: 4}}},
 		// 2^62 one-byte chunks announced: capacity hint of the chunk table (C04-fix-10)
 		{Kind: "tree", Ops: []Ent{{Name: "big", Type: "reg", Size: 1 << 62, ChunkSize: 1, NoDigest: true}}},
+		// size = MaxInt64 with one-byte chunks: Size/ChunkSize+1 overflows (C04-fix-16)
+		{Kind: "tree", Ops: []Ent{{Name: "big", Type: "reg", Size: 1<<63 - 1, ChunkSize: 1, NoDigest: true}}},
+		{Kind: "tree", Ops: []Ent{{Name: "big", Type: "reg", Size: 1<<63 - 1, ChunkSize: 1<<63 - 2, NoDigest: true}, {Name: "big", Type: "chunk", ChunkOffset: 1<<63 - 2}}},
+		// trailing chunk with chunkOffset == file size and no chunkSize: an empty chunk at EOF (GetPassthroughFd loop)
+		{Kind: "tree", Ops: []Ent{{Name: "f", Type: "reg", Size: 10, ChunkSize: 5, Offset: 10}, {Name: "f", Type: "chunk", ChunkOffset: 5, ChunkSize: 5, Offset: 20}, {Name: "f", Type: "chunk", ChunkOffset: 10, Offset: 30}}},
+		// empty chunk found for an offset inside the file (gap before it): the prefetch chunk loop must advance
+		{Kind: "tree", Ops: []Ent{{Name: "f", Type: "reg", Size: 10, ChunkSize: 4, Offset: 10}, {Name: "f", Type: "chunk", ChunkOffset: 10, Offset: 20}}},
+		{Kind: "tree", Ops: []Ent{{Name: "f", Type: "reg", Size: 10, ChunkSize: 4, Offset: 10}, {Name: "f", Type: "chunk", ChunkOffset: 0, Offset: 20}, {Name: "f", Type: "chunk", ChunkOffset: 7, ChunkSize: -3, Offset: 30}}},
 		// chunked file with gap / unsorted / overlapping chunks and hostile numbers
 		{Kind: "tree", Ops: []Ent{{Name: "f", Type: "reg", Size: 30, ChunkSize: 10, Offset: 10}, {Name: "f", Type: "chunk", ChunkOffset: 20, ChunkSize: 10, Offset: 20}, {Name: "f", Type: "chunk", ChunkOffset: 5, ChunkSize: -10, Offset: 30}}},
 	}
